@@ -149,6 +149,33 @@ def one_case(ctx, k):
                 ctx.violation('c18-batch-dependent', f'row {x_.tolist()} evaluated in a batch of {len(sub)} row(s): log_likelihood {v_} but branch weights x leaf tree '
                                                      f'likelihood gives {ref}', replay=dict(rep, rows=sub.tolist()))
                 return
+    # two or more evaluations of the same learned network overlapping in time (a data set scored in chunks by a thread pool): every row
+    # still gets its own value
+    if c.children and k % 3 == 0:
+        import threading
+        chunks = [rows[i::4] for i in range(4)]
+        refs = [ll[i::4] for i in range(4)]
+        bad, start = [], threading.Barrier(4)
+
+        def work(ci):
+            try:
+                start.wait(10)
+                for _ in range(25):
+                    got = np.asarray(c.log_likelihood(chunks[ci]), dtype=np.float64).reshape(-1)
+                    if got.shape != refs[ci].shape or np.any(np.abs(got - refs[ci]) > 1e-4 + 1e-5 * np.abs(refs[ci])):
+                        bad.append(f'chunk {ci}: values differ from those of the sequential evaluation (e.g. row {chunks[ci][0].tolist()})')
+                        return
+            except Exception as ex:
+                bad.append(f'chunk {ci}: {type(ex).__name__}: {str(ex)[:120]}')
+        ts = [threading.Thread(target=work, args=(i,), daemon=True) for i in range(4)]
+        for t in ts:
+            t.start()
+        for t in ts:
+            t.join(60)
+        ctx.count('concurrent-evaluations')
+        if bad:
+            ctx.violation('c18-concurrent', f'four threads scoring disjoint chunks of the rows with the same learned network ({which}): ' + bad[0], replay=dict(rep, concurrent=True))
+            return
     tree, probs = export(c)
     if probs:
         ctx.violation('c18-malformed', 'returned network is malformed: ' + probs[0], replay=rep)
@@ -202,7 +229,7 @@ def replay(rep):
         from harness.common import replay_demo
         return replay_demo(rep['replay'])
     r = rep['replay']
-    if r.get('history'):
+    if r.get('history') or r.get('concurrent'):
         # regenerate the whole case (both fits on one object) from its seed and run it through the same oracle, without the model
         from harness.common import Ctx
         ctx = Ctx('C18', 'quick', r['seed'])
